@@ -27,14 +27,16 @@ PROP = dict(
                "Err(GasFloorMoreThanGasLimit) iff Prague and floor > gas_limit, else Ok(both values); validate_env is Ok iff no "
                "header rule and no stateless rule is broken. The `for blob in ..` loop carries the invariant 'all earlier hashes "
                "start with 0x01'. The helper contracts (effective price, blob fee, total blob gas) are whole-value and unbounded.",
-    level_note="DOMAIN / FINDINGS (each an explicit clause of the verified contract plus a failing property-level twin obligation "
-               "listed in known_findings.txt, replayed on the real crate): (1) fee_sum_wraps / valid_fee_cap_rejected: "
-               "effective_gas_price adds base_fee + priority_fee with U256's wrapping `+`; the EIP-1559 verdict is proved wherever "
-               "the sum is < 2^256, beyond it the code REJECTS a valid transaction. (2) eip7702_null_destination_accepted: EIP-7702 "
-               "forbids a nil destination, validate_tx has no such rule. (3) eip2681_nonce_max_accepted: nonce 2^64-1 is "
-               "accepted (NonceOverflowInTransaction is never produced). (4) max_blob_fee_saturates: the blob part of the upfront "
-               "cost is a saturating product; when it saturates and the rest of the cost is 0 the verdict is LackOfFund / Ok "
-               "instead of OverflowPayment. NOT proved: CfgEnv::blob_max_count (iter().rev().find_map: iterator adapters) -- "
+    level_note="FINDINGS: three disagreements found by the first build of this property were FIXED in /repo and the verified "
+               "contracts are now the property-level ones for ALL inputs (known_findings.txt `fixed:` lines): fee_sum_wraps / "
+               "valid_fee_cap_rejected (effective_gas_price added base_fee + priority_fee with U256's wrapping `+` and a valid "
+               "transaction was rejected; 7ad06213 saturating_add), eip7702_null_destination_accepted (EIP-7702 forbids a nil "
+               "destination; 2eca1e78, reported as AuthorizationListInvalidFields, last stateless rule of the oracle), "
+               "eip2681_nonce_max_accepted (nonce 2^64-1 was accepted; 52c6d0f9 NonceOverflowInTransaction). REMAINING "
+               "FINDING max_blob_fee_saturates (explicit clause of the verified contract + failing property-level twin listed in "
+               "known_findings.txt, replayed on the real crate): the blob part of the upfront cost is a saturating product; when it "
+               "saturates and the rest of the cost is 0 the verdict is LackOfFund / Ok instead of OverflowPayment. "
+               "NOT proved: CfgEnv::blob_max_count (iter().rev().find_map: iterator adapters) -- "
                "ASSUMED to return the blob-schedule entry blob_schedule_max(list, spec) (last list item whose fork is enabled, "
                "else 6); gas::calculate_initial_tx_gas (iterator adapters) -- ASSUMED contract: an uninterpreted function of its "
                "five arguments (initial_tx_gas_of) with the two result fields; its formula is checked only by C14's BOUNDED Kani "
@@ -70,11 +72,6 @@ PROP = dict(
         "in this order and run post_execution().clear on the error path (crates/revm/src/evm.rs, dyn handler table)",
     ],
     assumptions=[
-        "FINDING fee_sum_wraps / valid_fee_cap_rejected: the EIP-1559 verdict is verified for base_fee + priority_fee < 2^256; "
-        "beyond, the contract states what the code does (wrapped sum) and the property-level twin fails",
-        "FINDING eip7702_null_destination_accepted: the oracle's rule list is what the code can report; the EIP-7702 rule "
-        "'destination not nil' has no error kind and is stated separately (eip7702_null_destination); its twin fails",
-        "FINDING eip2681_nonce_max_accepted: the state oracle is verified for tx.nonce != 2^64-1; the twin with the EIP-2681 rule fails",
         "FINDING max_blob_fee_saturates: the state oracle is verified where max_fee_per_blob_gas * blob_gas < 2^256; the exact "
         "behaviour beyond (saturated addend) is in the verified contract (max_upfront_cost_impl); the twin fails",
         "validate_tx requires header_valid (validate_block_env ran first: `expect(\"already checked\")`); "
